@@ -366,7 +366,13 @@ class World:
         elif o == 'removefrom':
             rel, p = t[1], self.obj(t[2])
             cs = [self.obj(x) for x in t[4:4 + int(t[3])]]
-            getattr(p, REL[rel][4])(self._as_iterable(cs, t))
+            if t[4 + int(t[3]):] == ['set']:
+                # trailing marker (ignored by the model's op parser: the model's argument is the same list): the
+                # caller hands over a `set`, the argument type the docstrings of remove_*_from name - the one branch
+                # that uses the caller's object as it is instead of building a set from it
+                getattr(p, REL[rel][4])(set(cs))
+            else:
+                getattr(p, REL[rel][4])(self._as_iterable(cs, t))
         elif o == 'reorder':
             rel, p = t[1], self.obj(t[2])
             cs = [self.obj(x) for x in t[4:4 + int(t[3])]]
@@ -386,7 +392,10 @@ class World:
             w = self.obj(t[1])
             w.disconnect_pins_from(self._as_iterable([self.pin_arg(x) for x in t[3:3 + int(t[2])]], t))
         elif o == 'setref':
-            self.obj(t[1]).reference = self.obj(t[2])
+            if t[2] == '~' and t[3:] == ['del']:   # the deleter of the attribute: documented as "set to None"
+                del self.obj(t[1]).reference
+            else:
+                self.obj(t[1]).reference = self.obj(t[2])
         elif o == 'settop':
             n = self.obj(t[1])
             n.top_instance = None if t[2] == 'N' else self._at(t[2][1:])
@@ -403,17 +412,31 @@ class World:
         elif o == 'downto':
             self.obj(t[1]).is_downto = (t[2] == '1')
         elif o == 'scalar':
-            self.obj(t[1]).is_scalar = (t[2] == '1')
+            if t[3:] == ['array']:   # the same assignment spelled through the inverse attribute
+                self.obj(t[1]).is_array = not (t[2] == '1')
+            else:
+                self.obj(t[1]).is_scalar = (t[2] == '1')
         elif o == 'lower':
             self.obj(t[1]).lower_index = int(t[2])
         elif o == 'direction':
-            self.obj(t[1]).direction = [sdn.UNDEFINED, sdn.INOUT, sdn.IN, sdn.OUT][int(t[2])]
+            d = [sdn.UNDEFINED, sdn.INOUT, sdn.IN, sdn.OUT][int(t[2])]
+            how = t[3] if len(t) > 3 else 'enum'
+            if how == 'int':        # the documented int form (0: UNDEFINED, 1: INOUT, 2: IN, 3: OUT)
+                d = int(t[2])
+            elif how[:3] == 'str':  # the documented string form, compared case-insensitively with the names
+                nm = ['undefined', 'inout', 'in', 'out'][int(t[2])]
+                d = {'strl': nm, 'stru': nm.upper(), 'strc': nm.capitalize()}[how]
+            self.obj(t[1]).direction = d
         elif o == 'policy':
             sdn.namespace_manager.default = 'EDIF' if t[1] == '1' else 'DEFAULT'
         elif o in ('clone', 'uniquify', 'flatten'):
             try:
                 if o == 'clone':
-                    self.obj(t[1]).clone()
+                    if int(t[1]) % 2:
+                        from spydrnet.clone import clone as _clone   # the function form of the public API
+                        _clone(self.obj(t[1]))
+                    else:
+                        self.obj(t[1]).clone()
                 elif o == 'uniquify':
                     from spydrnet.uniquify import uniquify as _uniquify
                     _uniquify(self.obj(t[1]))
